@@ -7,6 +7,7 @@ package c20
 import (
 	"encoding/json"
 	"fmt"
+	"net/http/httptest"
 	"os"
 	"os/exec"
 	"regexp"
@@ -17,12 +18,15 @@ import (
 	"github.com/Syuparn/pangaea/evaluator"
 	"github.com/Syuparn/pangaea/object"
 	"github.com/Syuparn/pangaea/parser"
+	httpbuiltin "github.com/Syuparn/pangaea/props/modules/http/builtin"
 	verifrt "github.com/Syuparn/pangaea/verifrt"
 
 	"panmc/internal/core"
 	"panmc/internal/explore"
 	"panmc/internal/sched"
 	"panmc/internal/tk"
+
+	"github.com/labstack/echo/v4"
 )
 
 func init() {
@@ -33,6 +37,7 @@ func init() {
 			"S2 (real evaluations, deviation bound 1, thorough 2): 2-3 Evals in separate scopes of one interpreter that intern the same new identifiers, call evalEnv, decode JSON and compare/hash/print the strings the symbol table hands out; " +
 			"S3 (start-up loaders, bound 1, thorough 2): pairs of the real readNativeCode bodies from the table state that exists when the start-up goroutines are spawned; " +
 			"S4 (main script and handlers, bound 1, thorough 2): one evaluation assigning variables in a shared scope while 1-2 others call a handler function defined in that scope from enclosed scopes (what the HTTP module does after serve(background: true)); " +
+			"S5 (the real request handlers of the http module, bound 1, thorough 2): handler objects are built by the module's own S.get/S.post in a script scope and their Go handler functions are called directly (echo context over an in-memory recorder, no server, no network) by 2 threads x 1-2 requests out of 9, all pairs, plus every single-thread history of 2 requests; every response (status, content type, header, body) must equal the response the same request gets alone from freshly built handlers; local variables that a Go closure assigns although they are declared outside it are recorded like fields (state kept by a closure that several requests call); " +
 			"the tables are restored to a snapshot before every execution; oracle: no happens-before-unordered conflicting accesses on symHashTable/strTable nor on any package-level variable that a function other than init assigns, nor on any field of an object-package struct that some statement assigns after construction (every read/write of such a field is recorded per object; at present Env.Store, PanErr.StackTrace, PanFunc.Env, PanObj.Keys/Pairs/PrivateKeys/zero; a new lazily written field is picked up automatically), SymHash2Str returns what the thread interned, Items() never panics, no deadlock, same final tables and results in every schedule; " +
 			"states = schedules executed, transitions = scheduling steps; non-trivial = schedule containing a cross-thread conflicting access pair; distinct = distinct (scenario, choice vector); round 7: S2 also has two programs that catch errors raised by built-in code (exhausted built-in iterators asked again, failing built-ins, `_`).; round 8: The sync shim reports a lock value copied after its first use; S4 also runs pairs of handlers that only read shared values while expanding them into calls and literals or instantiating a shared iterator literal.",
 		Assumptions: []string{
@@ -59,6 +64,7 @@ type world struct {
 	snapA    map[string]object.SymHash
 	snapB    map[object.SymHash]*object.PanStr
 	preParse map[string]interface{}
+	alone    map[string]string
 }
 
 func newWorld(c *core.Ctx) *world {
@@ -238,6 +244,142 @@ func genS4(thorough bool, emit func(tcase)) {
 	emit(tcase{Scenario: "S4", Threads: [][]string{{mains[0]}, {handlers[0]}, {handlers[0]}}, Bound: 1})
 }
 
+// ---------------------------------------------------------------- S5: the http module's request handlers
+
+const s5Setup = "invite!(\"http\")\nzz_users := [{id: \"1\", name: \"Taro\"}, {id: \"2\", name: \"Jiro\"}]\n" +
+	"zz_h1 := S.get(\"/users/:id\") {|req| zz_users.find {|u| u.id == req.params.id} || Response.new(status: 404, body: \"not found\")}\n" +
+	"zz_h2 := S.post(\"/echo\") {|req| req.body + \"!\"}\n" +
+	"zz_h3 := S.put(\"/made/:k\") {|req| Response.new(status: 200 + req.params.k.I, body: \"made\", headers: {\"X-A\": req.params.k})}\n" +
+	"zz_h4 := S.get(\"/json\") {|req| {n: req.queries.n, h: req.headers['Accept]}}\n" +
+	"zz_h5 := S.delete(\"/gone\") {|req| Response.new(status: 204)}\nzz_h1"
+
+type s5req struct{ handler, method, url, params, body string }
+
+var s5reqs = map[string]s5req{
+	"u1":    {"zz_h1", "GET", "/users/1", "id=1", ""},
+	"u2":    {"zz_h1", "GET", "/users/2", "id=2", ""},
+	"u9":    {"zz_h1", "GET", "/users/9", "id=9", ""},
+	"echoA": {"zz_h2", "POST", "/echo", "", "aaa"},
+	"echoB": {"zz_h2", "POST", "/echo", "", "b"},
+	"made1": {"zz_h3", "PUT", "/made/1", "k=1", ""},
+	"made0": {"zz_h3", "PUT", "/made/0", "k=0", ""},
+	"json":  {"zz_h4", "GET", "/json?n=5", "", ""},
+	"gone":  {"zz_h5", "DELETE", "/gone", "", ""},
+}
+
+var s5names = []string{"u1", "u2", "u9", "echoA", "echoB", "made1", "made0", "json", "gone"}
+
+func s5Call(h echo.HandlerFunc, rq s5req) string {
+	e := echo.New()
+	var body *strings.Reader
+	req := httptest.NewRequest(rq.method, rq.url, nil)
+	if rq.body != "" {
+		body = strings.NewReader(rq.body)
+		req = httptest.NewRequest(rq.method, rq.url, body)
+	}
+	req.Header.Set("Accept", "text/x-"+rq.method)
+	rec := httptest.NewRecorder()
+	c := e.NewContext(req, rec)
+	if rq.params != "" {
+		kv := strings.SplitN(rq.params, "=", 2)
+		c.SetParamNames(kv[0])
+		c.SetParamValues(kv[1])
+	}
+	err := h(c)
+	return fmt.Sprintf("%d ct=%s xa=%s body=%q err=%v", rec.Code, rec.Header().Get("Content-Type"), rec.Header().Get("X-A"), rec.Body.String(), err)
+}
+
+func (w *world) s5Body(hs map[string]echo.HandlerFunc, names []string, results *[]string, idx int) func() {
+	return func() {
+		var outs []string
+		for _, n := range names {
+			out := "?"
+			func() {
+				defer func() {
+					if p := recover(); p != nil {
+						out = fmt.Sprintf("PANIC %v", p)
+					}
+				}()
+				rq := s5reqs[n]
+				out = n + " -> " + s5Call(hs[rq.handler], rq)
+			}()
+			outs = append(outs, out)
+		}
+		(*results)[idx] = strings.Join(outs, " ; ")
+	}
+}
+
+// s5Handlers builds fresh handler objects in a fresh script scope.
+func (w *world) s5Handlers() map[string]echo.HandlerFunc {
+	main := object.NewEnclosedEnv(w.c.R().Root)
+	if o := w.c.R().EvalSrcIn(main, s5Setup, ""); o.Kind != "value" {
+		w.c.HarnessError("S5 set-up failed: %s", o.Short())
+		return nil
+	}
+	hs := map[string]echo.HandlerFunc{}
+	for _, n := range []string{"zz_h1", "zz_h2", "zz_h3", "zz_h4", "zz_h5"} {
+		v, ok := main.Get(object.GetSymHash(n))
+		if !ok {
+			w.c.HarnessError("S5: %s is not defined", n)
+			return nil
+		}
+		h, ok := httpbuiltin.VerifHandlerFunc(v)
+		if !ok {
+			w.c.HarnessError("S5: %s is not a handler object (%s)", n, v.Inspect())
+			return nil
+		}
+		hs[n] = h
+	}
+	return hs
+}
+
+// s5Alone is what a request is answered with when it is the only request freshly built handlers ever get.
+func (w *world) s5Alone(name string) string {
+	if v, ok := w.alone[name]; ok {
+		return v
+	}
+	hs := w.s5Handlers()
+	if hs == nil {
+		return "?"
+	}
+	res := make([]string, 1)
+	w.s5Body(hs, []string{name}, &res, 0)()
+	if w.alone == nil {
+		w.alone = map[string]string{}
+	}
+	w.alone[name] = res[0]
+	return res[0]
+}
+
+// s5AloneCached returns the pre-computed lone answer (computed before the exploration starts: building handlers
+// inside an execution would disturb the tables the execution is about to use).
+func (w *world) s5AloneCached(name string) string { return w.alone[name] }
+
+func genS5(thorough bool, emit func(tcase)) {
+	bound := 1
+	if thorough {
+		bound = 2
+	}
+	// every single-thread history of two requests (what an earlier request leaves behind for a later one)
+	for _, a := range s5names {
+		for _, b := range s5names {
+			emit(tcase{Scenario: "S5", Threads: [][]string{{a, b}}, Bound: 0})
+		}
+	}
+	for i, a := range s5names {
+		for _, b := range s5names[i:] {
+			emit(tcase{Scenario: "S5", Threads: [][]string{{a}, {b}}, Bound: bound})
+		}
+	}
+	// two requests per thread on the handlers that answer with and without a status of their own
+	for _, p := range [][2][]string{{{"u9", "u1"}, {"u2", "u9"}}, {{"made1", "made0"}, {"made0", "made1"}}, {{"u9", "echoA"}, {"echoB", "u1"}}} {
+		emit(tcase{Scenario: "S5", Threads: [][]string{p[0], p[1]}, Bound: 1})
+	}
+	if thorough {
+		emit(tcase{Scenario: "S5", Threads: [][]string{{"u9"}, {"u1"}, {"u2"}}, Bound: 1})
+	}
+}
+
 func (w *world) s3Body(name string, env *object.Env, results *[]string, idx int) func() {
 	return func() {
 		out := "?"
@@ -300,6 +442,14 @@ func (w *world) execute(t tcase, trace bool) obs {
 				bodies = append(bodies, w.envBody(th[0], object.NewEnclosedEnv(main), &results, i))
 			}
 		}
+	case "S5":
+		hs := w.s5Handlers()
+		if hs == nil {
+			return obs{}
+		}
+		for i, th := range t.Threads {
+			bodies = append(bodies, w.s5Body(hs, th, &results, i))
+		}
 	case "S3":
 		env := object.NewEnvWithConsts()
 		for i, th := range t.Threads {
@@ -320,6 +470,20 @@ var chooseFn func(site string, n int) int
 
 func (w *world) explore(t tcase, maxExec int) {
 	c := w.c
+	if t.Scenario == "S5" {
+		if !httpbuiltin.VerifHasHandler {
+			c.HarnessError("the http module's handler object is not exported by the overlay (type or field renamed?)")
+			return
+		}
+		for _, th := range t.Threads {
+			for _, n := range th {
+				if _, ok := w.alone[n]; !ok {
+					w.reset()
+					w.s5Alone(n)
+				}
+			}
+		}
+	}
 	var cur obs
 	var base *obs
 	reported := map[string]bool{}
@@ -366,6 +530,17 @@ func (w *world) explore(t tcase, maxExec int) {
 		}
 		for _, f := range cur.fails {
 			viol("postcondition/"+firstWords(f, 4), "post-condition holds", f, x)
+		}
+		if t.Scenario == "S5" {
+			for i, th := range t.Threads {
+				var want []string
+				for _, n := range th {
+					want = append(want, w.s5AloneCached(n))
+				}
+				if exp := strings.Join(want, " ; "); i < len(cur.results) && cur.results[i] != exp {
+					viol("response-differs-from-the-request-alone/"+strings.Join(th, "+"), exp, cur.results[i], x)
+				}
+			}
 		}
 		if base == nil {
 			b := cur
@@ -576,6 +751,7 @@ func run(c *core.Ctx) {
 	genS2(c.Thorough(), func(t tcase) { cases = append(cases, t) })
 	genS3(c.Thorough(), func(t tcase) { cases = append(cases, t) })
 	genS4(c.Thorough(), func(t tcase) { cases = append(cases, t) })
+	genS5(c.Thorough(), func(t tcase) { cases = append(cases, t) })
 	c.Note("S1_thread_assignments", nS1)
 	c.Note("scenario_instances", len(cases))
 	tk.Sharded(c, len(cases), func(i int) {
